@@ -420,7 +420,13 @@ class StmtMixin:
         key = fr.fi.key if fr.fi is not None else None
         anchors = self.anchors_for(fr.fi.node)
         lab = anchors.get(id(node))
-        return self.top.loop_specs.get((key, lab)) or (self.top.loop_specs.get(lab) if key == self.top.key else None)
+        # loops may also be named by what they iterate over (robust against loops added before them)
+        alt = ("iter:" + ast.unparse(node.iter)) if isinstance(node, ast.For) else ("while:" + ast.unparse(node.test))
+        for k in (lab, alt):
+            sp = self.top.loop_specs.get((key, k)) or (self.top.loop_specs.get(k) if key == self.top.key else None)
+            if sp is not None:
+                return sp
+        return None
 
     def havoc_loop(self, body, extra_modifies=None):
         names = assigned_names(body)
@@ -501,6 +507,13 @@ class StmtMixin:
             self.st.dhas = z3.Store(self.st.dhas, r, z3.Select(old[2], r))
             self.st.dval = z3.Store(self.st.dval, r, z3.Select(old[3], r))
             self.st.dlen = z3.Store(self.st.dlen, r, z3.Select(old[4], r))
+        # tuples created on this path are immutable: nothing can have changed them
+        tup = self.table.id("tuple")
+        for rid, cid in self.st.alloc_class.items():
+            if cid == tup:
+                r = z3.IntVal(rid)
+                self.st.llen = z3.Store(self.st.llen, r, z3.Select(old[0], r))
+                self.st.lel = z3.Store(self.st.lel, r, z3.Select(old[1], r))
         if hasattr(self, "reassume_invariants"):
             self.reassume_invariants()
 
